@@ -1361,6 +1361,15 @@ class Module(ABC):
             inds = parameter["indices"]
             set_param = parameter["val"]
             if key in states:  # Only initial states, not parameters.
+                # Synaptic states are stored per synapse type. As for synaptic
+                # parameters in `get_all_parameters()`, the global edge indices have to
+                # be mapped to the index within the synapse type.
+                if key in self.base.synapse_state_names:
+                    synapse_inds = self.base.edges.groupby("type").rank()[
+                        "global_edge_index"
+                    ]
+                    synapse_inds = (synapse_inds.astype(int) - 1).to_numpy()
+                    inds = synapse_inds[inds]
                 # `inds` is of shape `(num_params, num_comps_per_param)`.
                 # `set_param` is of shape `(num_params,)`
                 # We need to unsqueeze `set_param` to make it `(num_params, 1)` for the
